@@ -5,6 +5,7 @@
     Only statements here; proofs are in Proofs/Halt.v, Proofs/HaltAgg.v, Proofs/HaltSites.v. *)
 From Coq Require Import String.
 From Teleport Require Import Base.Bytes Base.Outcome Model.Rvesting Model.RvestingCheck Proofs.Rvesting.
+From Teleport Require Import Model.HaltGuardIR Gen.HaltGuardsGen Proofs.HaltGuards.
 From Teleport Require Import Model.Halt Model.HaltAgg Model.HaltCheck Proofs.Halt Proofs.HaltAgg Proofs.HaltSites.
 Local Open Scope N_scope.
 
@@ -48,10 +49,20 @@ Theorem validated_never_panics_toggle_client : forall now s t d chain cs k,
 Proof. intros. eapply validated_never_panics_xibc_proposal; eassumption. Qed.
 Print Assumptions validated_never_panics_toggle_client.
 
-Theorem validated_never_panics_register_relayer : forall now s t d a chains n,
-  xprop_validate (PRelayer t d a chains n) = Ok tt -> handle_xprop now head_strict s (PRelayer t d a chains n) <> Panic.
+(** RegisterRelayer stores the relayer under its address: the handler panics on an EMPTY address (prefix store:
+    "key is nil"); ValidateBasic excludes it because sdk.AccAddressFromBech32 refuses blank strings - for every
+    answer [dec] of the bech32 decoder. *)
+Theorem validated_never_panics_register_relayer : forall now s t d a dec chains n,
+  xprop_validate (PRelayer t d a dec chains n) = Ok tt -> handle_xprop now head_strict s (PRelayer t d a dec chains n) <> Panic.
 Proof. intros. eapply validated_never_panics_xibc_proposal; eassumption. Qed.
 Print Assumptions validated_never_panics_register_relayer.
+
+(** ... and the guard is needed: without validation the handler does panic (the theorem above is not true by
+    construction of the model). *)
+Example register_relayer_unvalidated_panics : forall now s,
+  handle_xprop now head_strict s (PRelayer (B "t") 1 [] false [B "chain-a"] 1) = Panic /\
+  xprop_validate (PRelayer (B "t") 1 [] true [B "chain-a"] 1) = Err.
+Proof. intros. split; reflexivity. Qed.
 
 (** Whole histories: from ANY module state, any sequence of validated proposals executed the way
     gov.EndBlocker does (state kept on success, discarded on error, no recover) runs to the end. *)
@@ -59,6 +70,14 @@ Theorem validated_history_never_halts : forall now ps s,
   (forall p, In p ps -> xprop_validate p = Ok tt) -> exists s', run_gov_head now s ps = Ok s'.
 Proof. exact run_gov_head_safe. Qed.
 Print Assumptions validated_history_never_halts.
+
+(** InitGenesis of a validated xibc genesis followed by any sequence of validated proposals: the state the
+    handlers find is the one InitGenesis wrote ([gx_state], compared with the real stores by the correspondence). *)
+Theorem validated_genesis_then_history_never_halts : forall now g ps,
+  gx_validate g = Ok tt -> (forall p, In p ps -> xprop_validate p = Ok tt) ->
+  gx_init g = Ok tt /\ exists s', run_gov_head now (gx_state g) ps = Ok s'.
+Proof. intros now g ps Hg Hp. split; [eapply gx_init_safe; [exact Hg | left; reflexivity] | apply run_gov_head_safe; exact Hp]. Qed.
+Print Assumptions validated_genesis_then_history_never_halts.
 
 (** Initialize / UpgradeState of a validated client state, for every client store and every consensus
     state (any type). *)
@@ -84,6 +103,22 @@ Proof.
   - intros ws E. rewrite E in H. exact H.
 Qed.
 Print Assumptions validated_never_panics_aggregate_proposal.
+
+(** The invariant [aenv_wf] is not an assumption about reachable states: InitGenesis of a validated aggregate
+    genesis establishes it (every environment whose readable pairs are the listed ones) ... *)
+Theorem validated_aggregate_genesis_establishes_invariant : forall l e,
+  ga_validate l = Ok tt ->
+  (forall id p, e_pair e id = Some p -> exists q, In q l /\ p_denoms p = gp_denoms q) -> aenv_wf e.
+Proof. exact ga_validate_establishes_wf. Qed.
+Print Assumptions validated_aggregate_genesis_establishes_invariant.
+
+(** ... and every history of validated proposals keeps it and never panics: between two proposals every oracle
+    (bank, EVM, parameters) may change arbitrarily; the token pairs readable afterwards are those readable
+    before or written by the step ([achain]). *)
+Theorem validated_aggregate_history_never_halts : forall l e,
+  aenv_wf e -> (forall p e', In (p, e') l -> aprop_validate p = Ok tt) -> achain e l -> arun_no_panic e l.
+Proof. exact aggregate_history_safe. Qed.
+Print Assumptions validated_aggregate_history_never_halts.
 
 (** ** rvesting parameters: every reward list accepted by validatePerBlockReward (whatever EnableVesting
     is) lets BeginBlocker return, for every non-negative pool. *)
@@ -119,6 +154,23 @@ Theorem validated_never_panics_rvesting_genesis : forall g,
 Proof. exact gr_init_safe. Qed.
 Print Assumptions validated_never_panics_rvesting_genesis.
 
+(** ** The regenerated guards of the validation functions (Gen/HaltGuardsGen.v, from the Go source on every run)
+    imply every bound the proofs above use: Epoch <> 0, len(Extra) >= extraVanity+extraSeal, bloom / nonce within
+    their arrays, ecrecover's length test, non-empty metadata keys, token pairs with a denomination, acknowledgements /
+    commitments with data; and the model supplies every field they mention. *)
+Theorem C15_validation_guards_sufficient : failed_guard_obligations = [].
+Proof. exact guard_obligations_hold. Qed.
+Print Assumptions C15_validation_guards_sufficient.
+
+(** What the theorems above rest on, stated directly on the regenerated guards: for EVERY environment in which a
+    guard list did not reject, the bound holds. *)
+Theorem bsc_validation_bounds : forall hd cid epoch tr,
+  validate_bsc hd cid epoch tr = Ok tt ->
+  epoch <> 0 /\ bsc_extra_vanity + bsc_extra_seal <= hd_extra_len hd /\
+  hd_bloom_len hd <= bsc_bloom_byte_length /\ hd_nonce_len hd <= bsc_nonce_byte_length.
+Proof. exact validate_bsc_facts. Qed.
+Print Assumptions bsc_validation_bounds.
+
 (** ** Every inventoried potential panic site of the reachable code is mapped to its guard. *)
 Theorem C15_panic_sites_covered : uncovered_sites = [].
 Proof. vm_compute. reflexivity. Qed.
@@ -147,7 +199,7 @@ Example C15_nonvacuous :
              PUpgrade (B "t") 1 (B "chain-a") (AnyVal ex_bsc) (AnyVal (ConsBSC 6));
              PToggle (B "t") 1 (B "chain-a") (AnyVal ex_eth) (AnyVal (ConsETH 7));
              PToggle (B "t") 1 (B "chain-a") (AnyVal ex_tss) (AnyVal ConsTSS);
-             PRelayer (B "t") 1 true [B "chain-a"] 1] in
+             PRelayer (B "t") 1 (B "teleport1qyqszqgpqyqszqgpqyqszqgpqyqszqgp5qvjlt") true [B "chain-a"] 1] in
   forallb (fun p => Nat.eqb (oclass (xprop_validate p)) 0) ps = true /\
   match run_gov_head 1767225600 [] ps with
   | Ok s => option_map client_type (c_client (xget s (B "chain-a"))) = Some TTSS
